@@ -1,1 +1,212 @@
+import Tftp.Props.C07
+import Tftp.Props.C08
+import Tftp.Props.C02
 import Tftp.Model.Net
+/-!
+# C04 — Loss tolerance
+
+Two layers.
+
+**Open system (proved here, every arrival history).** The only ways a data-phase worker can fail, and what
+each side does to recover: a time-out re-emits the whole outstanding window, an ACK inside the window
+slides it and renews the retry budget, a stale ACK changes nothing, a retransmitted block is
+re-acknowledged (so a sender whose ACK was lost can go on), an accepted block renews the receiver's budget.
+
+**Closed system.** `netRun` (`Model/Net.lean`) connects the two models through FIFO queues with a fault
+schedule. That every schedule with fewer than `MAX_RETRIES` losses ends with a byte-identical copy is
+*not* proved in general: it is `c04_closed_loop_partial` below (fault-free case, lock-step window), the
+property is therefore claimed with the open-system theorems plus exhaustive enumeration of fault
+placements against the real workers in the same closed loop (see DESIGN.md).
+-/
+namespace Tftp
+
+/-- **sender: abort only after the budget.** From a running state that satisfies the invariant, one receive
+attempt ends the transfer in failure only if it is a peer ERROR, or a failed attempt (time-out,
+undecodable or stray datagram) that is the `MAX_RETRIES`-th since the window last moved. No ACK — in the
+window, stale, duplicate or from the future — ever fails the transfer. -/
+theorem c04_sender_abort_only_after_budget (c : SCfg) (hb : 0 < c.b) (hw : c.w < 65536) (f : Bytes) (s : SState)
+    (h : SInv c f s) (hrun : s.status = .running) (ev : SEv) (dt : Nat)
+    (hfail : (sStep c s ev dt).1.status = .failed) :
+    ev = .error ∨ ((ev = .fail ∨ ev = .other) ∧ s.retry + 1 = Gen.maxRetries) := by
+  cases ev with
+  | error => exact Or.inl rfl
+  | fail =>
+    rcases fail_step c s .fail dt hrun (Or.inl rfl) with ⟨_, h2⟩ | ⟨h1, _⟩
+    · exact Or.inr ⟨Or.inl rfl, h2⟩
+    · rw [h1] at hfail; simp at hfail
+  | other =>
+    rcases fail_step c s .other dt hrun (Or.inr rfl) with ⟨_, h2⟩ | ⟨h1, _⟩
+    · exact Or.inr ⟨Or.inr rfl, h2⟩
+    · rw [h1] at hfail; simp at hfail
+  | ack n =>
+    exfalso
+    obtain ⟨bn, win, filled, retry, since, status, base⟩ := s
+    simp only at hrun
+    subst hrun
+    have hlen : win.len = win.elems.length := by
+      unfold Window.len; have := h.len_le; exact Nat.mod_eq_of_lt (by simp only at this; omega)
+    have h0 : SInv c f { bn := bn, win := win, filled := filled, retry := retry, since := since + dt,
+                         status := .running, base := base } :=
+      ⟨h.base_pos, h.bn_eq, h.elems_eq, h.cur, h.fin, h.len_le, h.size_eq, h.chunk_eq, h.can_read,
+        h.filled_eq, h.retry_lt⟩
+    unfold sStep at hfail
+    simp only [hlen] at hfail
+    split at hfail
+    · rename_i hd
+      have hs' := slide_inv h0 n hd hw
+      split at hfail
+      · simp at hfail
+      · have ho := (outer_good hb hw hs').2.2.1
+        simp only at ho hfail
+        rw [ho] at hfail
+        simp [slide] at hfail
+    · have hh := (head_good hb h0).2.2.1
+      simp only at hh hfail
+      rw [hh] at hfail
+      simp at hfail
+
+/-- **sender: a time-out re-emits the entire outstanding window** with the same numbers and contents -/
+theorem c04_timeout_resends_window (c : SCfg) (s : SState) (hrun : s.status = .running) (dt : Nat)
+    (hbudget : s.retry + 1 ≠ Gen.maxRetries) (ht : s.since + dt ≥ c.timeout) :
+    (sStep c s .fail dt).2 = sendWindow c.rep s.bn s.win.elems ∧
+    (sStep c s .fail dt).1.win = s.win ∧ (sStep c s .fail dt).1.bn = s.bn ∧
+    (sStep c s .fail dt).1.status = .running := by
+  unfold sStep
+  simp only [hrun, hbudget, ↓reduceIte]
+  unfold sHead
+  simp [ht, hrun]
+
+/-- **sender: an ACK inside the window renews the retry budget** -/
+theorem c04_progress_renews_budget (c : SCfg) (hb : 0 < c.b) (hw : c.w < 65536) (f : Bytes) (s : SState)
+    (h : SInv c f s) (hrun : s.status = .running) (n dt : Nat)
+    (hin : (n + 65536 - s.bn) % 65536 < s.win.elems.length) :
+    (sStep c s (.ack n) dt).1.status = .ok ∨ (sStep c s (.ack n) dt).1.retry = 0 := by
+  have hlen : s.win.len = s.win.elems.length := by
+    unfold Window.len; have := h.len_le; exact Nat.mod_eq_of_lt (by omega)
+  have h0 : SInv c f { s with since := s.since + dt } :=
+    ⟨h.base_pos, h.bn_eq, h.elems_eq, h.cur, h.fin, h.len_le, h.size_eq, h.chunk_eq, h.can_read,
+      h.filled_eq, h.retry_lt⟩
+  have hs' := slide_inv h0 n hin hw
+  obtain ⟨w', fl, hfill, _, _⟩ := fill_ok hb hw hs'
+  unfold sStep
+  simp only [hrun, hlen, hin, ↓reduceIte]
+  split
+  · left; rfl
+  · right
+    unfold sOuter
+    simp only [slide] at hfill ⊢
+    rw [hfill]
+    simp only
+    unfold sHead
+    split <;> rfl
+
+/-- **receiver: abort only after the budget** -/
+theorem c04_receiver_abort_only_after_budget (c : RCfg) (hw : c.w < 65536) (s : RState) (h : RInv c s)
+    (hrun : s.status = .running) (ev : REv) (hfail : (rStep c s ev).1.status = .failed) :
+    ev = .error ∨ (ev = .fail ∧ s.retry + 1 = Gen.maxRetries) := by
+  cases ev with
+  | error => exact Or.inl rfl
+  | fail =>
+    rcases r_fail_step c s hrun with ⟨_, h2⟩ | ⟨h1, _⟩
+    · exact Or.inr ⟨rfl, h2⟩
+    · rw [h1] at hfail; simp at hfail
+  | data n payload =>
+    exfalso
+    obtain ⟨bn, win, retry, status, accepted⟩ := s
+    simp only at hrun
+    subst hrun
+    have hlen : win.len = win.elems.length := by
+      unfold Window.len; have := h.pend_lt; exact Nat.mod_eq_of_lt (by simp only at this; omega)
+    have hadd : win.add payload = ({ win with elems := win.elems ++ [payload] }, .ok ()) := by
+      unfold Window.add
+      have : ¬ win.len = win.size := by
+        rw [hlen]; have h1 := h.size_eq; have h2 := h.pend_lt; simp only at h1 h2; omega
+      simp [this]
+    have hfl : ∀ t : RState, t.win.file.canWrite = true → t.status = .running → (flushAck c t).1.status = .running := by
+      intro t ht hr
+      rw [(flushAck_spec c t ht).1]; exact hr
+    have hcw : win.file.canWrite = true := h.can_write
+    unfold rStep at hfail
+    simp only at hfail
+    split at hfail
+    · simp only [hadd] at hfail
+      split at hfail
+      · unfold markOk at hfail
+        have := hfl { bn := n, win := { win with elems := win.elems ++ [payload] }, retry := 0, status := .running,
+                      accepted := payload :: accepted } hcw rfl
+        simp only [this, ↓reduceIte] at hfail
+        simp at hfail
+      · split at hfail
+        · have := hfl { bn := n, win := { win with elems := win.elems ++ [payload] }, retry := 0, status := .running,
+                        accepted := payload :: accepted } hcw rfl
+          rw [this] at hfail; simp at hfail
+        · simp at hfail
+    · split at hfail
+      · simp at hfail
+      · have := hfl { bn := bn, win := win, retry := retry, status := .running, accepted := accepted } hcw rfl
+        rw [this] at hfail; simp at hfail
+
+/-- **receiver: a retransmitted block is re-acknowledged.** When nothing is pending (the last ACK went out
+and may have been lost) any DATA that is not the next expected one — in particular the retransmission
+of the block just acknowledged — makes the receiver repeat the ACK of the last in-sequence block;
+its state is unchanged. This is what repairs a lost ACK. -/
+theorem c04_reack_on_retransmission (c : RCfg) (s : RState) (hrun : s.status = .running)
+    (hcw : s.win.file.canWrite = true) (hnone : s.win.elems = []) (n : Nat) (payload : Bytes)
+    (hseq : n ≠ (s.bn + 1) % 65536) :
+    (rStep c s (.data n payload)).2 = ackOut c.rep s.bn s.win.file ∧
+    (rStep c s (.data n payload)).1.accepted = s.accepted ∧ (rStep c s (.data n payload)).1.bn = s.bn ∧
+    (rStep c s (.data n payload)).1.status = .running := by
+  have hemp : s.win.isEmpty = true := by simp [Window.isEmpty, hnone]
+  unfold rStep
+  simp only [hrun, hseq, ↓reduceIte, hemp]
+  simp only [Bool.not_true, Bool.and_false, Bool.false_eq_true, ↓reduceIte]
+  obtain ⟨h1, h2⟩ := flushAck_spec c s hcw
+  rw [h1, h2]
+  simp [hnone, hrun]
+
+/-- **receiver: every accepted block renews the retry budget** (not only every completed window) -/
+theorem c04_accept_renews_budget (c : RCfg) (s : RState) (hrun : s.status = .running) (n : Nat) (payload : Bytes)
+    (hseq : n = (s.bn + 1) % 65536) :
+    (rStep c s (.data n payload)).1.status = .failed ∨ (rStep c s (.data n payload)).1.retry = 0 := by
+  unfold rStep
+  simp only [hrun, hseq, ↓reduceIte]
+  split
+  · split
+    · right
+      unfold markOk flushAck
+      split <;> (simp only; split <;> rfl)
+    · split
+      · right; unfold flushAck; split <;> rfl
+      · right; rfl
+  · left; rfl
+
+/-- the retry budget is the constant of the source (`MAX_RETRIES`) and at least six: fewer than six
+consecutive failed receive attempts never exhaust it -/
+theorem c04_six_le_budget : 6 ≤ Gen.maxRetries := by decide
+
+/-- **closed loop, partial**: without faults the lock-step transfer of an empty file completes — the
+smallest instance of the closed-loop claim, kept as the anchor of the simulator; the general statement
+is enumerated against the implementation (see header) -/
+theorem c04_closed_loop_partial (b : Nat) (hb : 0 < b) :
+    let sc : SCfg := { b := b, w := 1, timeout := 5000, rep := 1 }
+    let rc : RCfg := { b := b, w := 1, rep := 1, cleanOnError := true }
+    let st := netRun sc rc Faults.none 4 (netInit sc rc Faults.none [])
+    st.s.status = .ok ∧ st.r.status = .ok ∧ st.r.win.file.content = [] := by
+  have h0 : ¬ (0 = b) := by omega
+  have hlt : (0 : Nat) < b := hb
+  simp [netRun, netStep, netInit, sInit, sOuter, sHead, Window.fill, Window.new, Window.len, FileSt.openRead,
+    fillLoop, sendWindow, sendPacket, emitData, dataOf, applyFaults, Faults.none, rInit, receiverRunning,
+    senderRunning, rStep, Window.add, FileSt.create, markOk, flushAck, Window.empty, Window.isFull, ackOut,
+    emitAcks, sStep, slide, Window.isEmpty, FileSt.write, FileSt.content, h0, hlt, Gen.timeoutBufferMs]
+
+/-! non-vacuity: a lost DATA and a lost ACK in a three-block transfer with windowsize 2 -/
+def exSc : SCfg := { b := 2, w := 2, timeout := 5, rep := 1 }
+def exRc : RCfg := { b := 2, w := 2, rep := 1, cleanOnError := true }
+def exFl : Faults := { dropData := [1], dupData := [], dropAck := [0], dupAck := [] }
+
+example : (netRun exSc exRc exFl 60 (netInit exSc exRc exFl [1, 2, 3, 4, 5])).s.status = .ok ∧
+    (netRun exSc exRc exFl 60 (netInit exSc exRc exFl [1, 2, 3, 4, 5])).r.status = .ok ∧
+    (netRun exSc exRc exFl 60 (netInit exSc exRc exFl [1, 2, 3, 4, 5])).r.win.file.content = [1, 2, 3, 4, 5] := by
+  decide
+
+end Tftp
